@@ -520,7 +520,9 @@ def deadlineArmed (st : State) (c : Conn) : Bool :=
 def connInput (st : State) (c : Conn) (i : Input) : State × List Out :=
   if i == .idle && !deadlineArmed st c then (st, []) else
   match c.phase with
-  | .httpWait _ => closeConn st c      -- nothing is read any more; eof / the 5 s timer end the wait
+  | .httpWait _ =>
+    -- nothing is read while the GET channel waits for its POST; only the 5 s timer ends the wait
+    if i == .idle then closeConn st c else (st, [])
   | .fresh =>
     (match i with
      | .httpGet cookie =>
